@@ -5,11 +5,11 @@ package zzvx
 
 import (
 	"bytes"
-	"reflect"
 	"encoding/hex"
 	"encoding/json"
 	"fmt"
 	"os"
+	"reflect"
 	"runtime/debug"
 	"strconv"
 	"sync"
@@ -131,13 +131,13 @@ func Assert(name string, cond bool) {
 	}
 }
 
-func Fail(name string)                { panic(assertFailure{name}) }
-func Tag(name string, v interface{})  {}
-func Note(msg string)                 {}
-func Symbolic() bool                  { return false }
-func LocksHeld() int                  { return -1 }
-func Hex(b []byte) string             { return hex.EncodeToString(b) }
-func Emit(s string)                   { fmt.Println("EMIT: " + s) }
+func Fail(name string)               { panic(assertFailure{name}) }
+func Tag(name string, v interface{}) {}
+func Note(msg string)                {}
+func Symbolic() bool                 { return false }
+func LocksHeld() int                 { return -1 }
+func Hex(b []byte) string            { return hex.EncodeToString(b) }
+func Emit(s string)                  { fmt.Println("EMIT: " + s) }
 
 func Param(name string, def int) int {
 	if v, ok := params[name]; ok {
@@ -205,10 +205,10 @@ func RunEmit(t *testing.T, fn func()) {
 	fn()
 }
 
-func BytesEq(a, b []byte) bool  { return bytes.Equal(a, b) }
-func And(a, b bool) bool        { return a && b }
-func Or(a, b bool) bool         { return a || b }
-func Implies(a, b bool) bool    { return !a || b }
+func BytesEq(a, b []byte) bool { return bytes.Equal(a, b) }
+func And(a, b bool) bool       { return a && b }
+func Or(a, b bool) bool        { return a || b }
+func Implies(a, b bool) bool   { return !a || b }
 
 func Equal(a, b interface{}) bool {
 	return deepEq(reflect.ValueOf(a), reflect.ValueOf(b))
